@@ -20,22 +20,33 @@ theorem c06_tokenize (id m : String) (toks : List String) (term : String)
     (hterm : term = "\r\n" ∨ term = "\n")
     (hid : CleanTok id) (hm : CleanTok m) (htoks : ∀ t ∈ toks, CleanTok t) :
     parseRequest (joinBar (id :: m :: toks) ++ term) = some (id, m, toks) := by
-  sorry
+  apply parseRequest_joinBar
+  · rcases hterm with rfl | rfl <;> decide
+  · intro t ht
+    simp only [List.mem_cons] at ht
+    rcases ht with rfl | rfl | ht
+    · exact hid
+    · exact hm
+    · exact htoks t ht
 
 /-- every token the conforming encoder produces is clean (so `c06_tokenize` applies to its lines). -/
 theorem c06_encoder_tokens_clean (σ : Schema) (a : Args) (toks : List String)
     (h : Spec.encodeArgs σ a = some toks) : ∀ t ∈ toks, CleanTok t := by
-  sorry
+  exact encodeArgs_clean σ a toks h
 
 /-- **C06 (generic layout round trip).** For every layout and all arguments that fit it, decoding
     the conforming encoding returns exactly the arguments. -/
 theorem c06_generic (σ : Schema) (a : Args) (toks : List String)
     (h : Spec.encodeArgs σ a = some toks) : decodeWith σ toks = .ok a := by
-  sorry
+  exact decodeWith_encodeArgs σ a toks h
 
 /-- the 18 layouts are found by their method name. -/
 theorem c06_schemas_lookup : ∀ σ ∈ schemas, schemaOf σ.method = some σ := by
   decide
+
+/-- the 18 method names are clean tokens. -/
+theorem c06_method_clean : ∀ σ ∈ schemas, CleanTok σ.method := by
+  unfold CleanTok; decide
 
 /-- **C06 (all 18 request kinds, whole line).** Decoding a conforming request line yields the request
     id, the method and exactly the encoded arguments, whichever terminator ends the line. -/
@@ -44,7 +55,17 @@ theorem c06_all (σ : Schema) (hσ : σ ∈ schemas) (id : String) (a : Args) (t
     (h : Spec.encodeRequest id σ a term = some line) :
     ∃ toks, parseRequest line = some (id, σ.method, toks) ∧
       decodeRequest σ.method toks = some (.ok a) := by
-  sorry
+  unfold Spec.encodeRequest at h
+  cases ha : Spec.encodeArgs σ a with
+  | none => simp [ha] at h
+  | some toks =>
+    simp only [ha, Option.map_some, Option.some.injEq] at h
+    subst h
+    refine ⟨toks, c06_tokenize id σ.method toks term hterm hid (c06_method_clean σ hσ)
+      (c06_encoder_tokens_clean σ a toks ha), ?_⟩
+    unfold decodeRequest
+    rw [c06_schemas_lookup σ hσ]
+    simp only [Option.map_some, c06_generic σ a toks ha]
 
 /-- the null mode may also arrive as `$` (the repository's tests send both). -/
 theorem c06_mode_null_alternatives : decodeModes "#" = .ok none ∧ decodeModes "$" = .ok none := by
